@@ -350,6 +350,9 @@ def gen_cases(tier, seed):
             cases.append({"kind": "single", "seed": seed, "plan": {"n": n, "scripts": [TEMPLATES[name]], "yields": [1, 1]}})
             cases.append({"kind": "single", "seed": seed, "plan": {"n": n, "scripts": [TEMPLATES[name], TEMPLATES["hold"]],
                                                                    "offsets": [0.003, 0], "yields": [2, 1]}})
+            # a listener start-up that takes its time before it binds (address resolution): the next command is there meanwhile
+            for pre in (3, 5, 8):
+                cases.append({"kind": "single", "seed": seed, "plan": {"n": n, "scripts": [TEMPLATES[name]], "yields": [pre, 1]}})
     # the configured ports handed over in other iterable shapes
     for shape in ("tuple", "generator", "iterator", "map", "range"):
         for name in ("retr", "two") if tier == "quick" else ("retr", "two", "epsv2", "hold"):
